@@ -7,6 +7,7 @@ import (
 	"path/filepath"
 	"reflect"
 	"runtime"
+	"sort"
 	"strings"
 	"time"
 
@@ -38,19 +39,21 @@ type cfgSetting struct {
 	get                 func(c config.Config) any
 	fileWant, envWant   any
 	def                 func() any
+	fileZero            string // the key present in the file with the zero value of its type
+	zeroWant            any
 }
 
 var c20Settings = []cfgSetting{
-	{"port", "port", "PORT", "7001", "7002", "abc", "80x", func(c config.Config) any { return c.Port }, 7001, 7002, func() any { return 8888 }},
-	{"dbPath", "storage.dbPath", "DB_PATH", "file_db", "env_db", "", "", func(c config.Config) any { return c.Storage.DbPath }, "file_db", "env_db", func() any { return "test_db" }},
-	{"maxDirCount", "storage.maxDirCount", "DIR_COUNT", "501", "502", "many", "-5", func(c config.Config) any { return c.Storage.MaxDirCount }, uint64(501), uint64(502), func() any { return uint64(1_000_000) }},
-	{"rootDirs", "storage.rootDirs", "ROOT_DIRS", "[fileRootA, fileRootB]", "envRootA;envRootB;envRootC", "", "", func(c config.Config) any { return strings.Join(c.Storage.RootDirs, "|") }, "fileRootA|fileRootB", "envRootA|envRootB|envRootC", func() any { return "./testStorage" }},
-	{"gcPeriod", "storage.gcPeriod", "GC_PERIOD", "7m", "9s", "soon", "5 parsecs", func(c config.Config) any { return c.Storage.GCPeriod }, 7 * time.Minute, 9 * time.Second, func() any { return time.Minute }},
-	{"numWorkers", "wPool.numWorkers", "NUM_WORKERS", "31", "37", "[1, 2]", "1.5", func(c config.Config) any { return c.WPool.NumWorkers }, 31, 37, func() any { return runtime.GOMAXPROCS(0) }},
-	{"sendDuration", "wPool.sendDuration", "SEND_DURATION", "13ms", "17us", "fast", "1 fortnight", func(c config.Config) any { return c.WPool.SendDuration }, 13 * time.Millisecond, 17 * time.Microsecond, func() any { return time.Millisecond }},
+	{"port", "port", "PORT", "7001", "7002", "abc", "80x", func(c config.Config) any { return c.Port }, 7001, 7002, func() any { return 8888 }, "0", 0},
+	{"dbPath", "storage.dbPath", "DB_PATH", "file_db", "env_db", "", "", func(c config.Config) any { return c.Storage.DbPath }, "file_db", "env_db", func() any { return "test_db" }, `""`, ""},
+	{"maxDirCount", "storage.maxDirCount", "DIR_COUNT", "501", "502", "many", "-5", func(c config.Config) any { return c.Storage.MaxDirCount }, uint64(501), uint64(502), func() any { return uint64(1_000_000) }, "0", uint64(0)},
+	{"rootDirs", "storage.rootDirs", "ROOT_DIRS", "[fileRootA, fileRootB]", "envRootA;envRootB;envRootC", "", "", func(c config.Config) any { return strings.Join(c.Storage.RootDirs, "|") }, "fileRootA|fileRootB", "envRootA|envRootB|envRootC", func() any { return "./testStorage" }, "[]", ""},
+	{"gcPeriod", "storage.gcPeriod", "GC_PERIOD", "7m", "9s", "soon", "5 parsecs", func(c config.Config) any { return c.Storage.GCPeriod }, 7 * time.Minute, 9 * time.Second, func() any { return time.Minute }, "0s", time.Duration(0)},
+	{"numWorkers", "wPool.numWorkers", "NUM_WORKERS", "31", "37", "[1, 2]", "1.5", func(c config.Config) any { return c.WPool.NumWorkers }, 31, 37, func() any { return runtime.GOMAXPROCS(0) }, "0", 0},
+	{"sendDuration", "wPool.sendDuration", "SEND_DURATION", "13ms", "17us", "fast", "1 fortnight", func(c config.Config) any { return c.WPool.SendDuration }, 13 * time.Millisecond, 17 * time.Microsecond, func() any { return time.Millisecond }, "0s", time.Duration(0)},
 }
 
-// file states: 0 key absent, 1 valid, 2 malformed; env states: 0 unset, 1 empty, 2 valid, 3 malformed
+// file states: 0 key absent, 1 valid, 2 malformed, 3 present with the zero value of its type; env states: 0 unset, 1 empty, 2 valid, 3 malformed
 type cfgCombo struct {
 	noFile bool
 	fs, es [7]int
@@ -63,7 +66,7 @@ func (cb cfgCombo) String() string {
 	}
 	for i, s := range c20Settings {
 		if cb.fs[i] != 0 || cb.es[i] != 0 {
-			parts = append(parts, fmt.Sprintf("%s:file=%s,env=%s", s.name, []string{"absent", "valid", "malformed"}[cb.fs[i]], []string{"unset", "empty", "valid", "malformed"}[cb.es[i]]))
+			parts = append(parts, fmt.Sprintf("%s:file=%s,env=%s", s.name, []string{"absent", "valid", "malformed", "zero-value"}[cb.fs[i]], []string{"unset", "empty", "valid", "malformed"}[cb.es[i]]))
 		}
 	}
 	return strings.Join(parts, " ")
@@ -79,6 +82,8 @@ func (cb cfgCombo) yaml() string {
 			v = s.fileValid
 		case 2:
 			v = s.fileBad
+		case 3:
+			v = s.fileZero
 		default:
 			continue
 		}
@@ -155,6 +160,8 @@ func c20Eval(c *rt.CaseResult, scratch string, cb cfgCombo) bool {
 				want, src = s.envWant, "environment"
 			case cb.fs[i] == 1:
 				want, src = s.fileWant, "file"
+			case cb.fs[i] == 3:
+				want, src = s.zeroWant, "file(zero-value)"
 			default:
 				want = s.def()
 			}
@@ -201,6 +208,9 @@ func c20Combos(tier string, seed int64, idx int, scratch string) rt.CaseResult {
 			if !clean && rng.Intn(12) == 0 {
 				cb.fs[i] = 2
 			}
+			if rng.Intn(10) == 0 {
+				cb.fs[i] = 3
+			}
 			if !clean && rng.Intn(12) == 0 {
 				cb.es[i] = 3
 			}
@@ -211,8 +221,8 @@ func c20Combos(tier string, seed int64, idx int, scratch string) rt.CaseResult {
 	// single and pairwise: settings (i,j), all states of both, the others at seeded clean states
 	for i := 0; i < 7; i++ {
 		for j := i; j < 7; j++ {
-			for si := 0; si < 12; si++ {
-				for sj := 0; sj < 12; sj++ {
+			for si := 0; si < 16; si++ {
+				for sj := 0; sj < 16; sj++ {
 					if i == j && sj != 0 {
 						continue
 					}
@@ -312,6 +322,39 @@ func c20Valid(tier string, seed int64, idx int, scratch string) rt.CaseResult {
 			continue
 		}
 		c.AddDistinct("open-invalid/" + tc.name)
+	}
+	// a limit below 100 is raised to 100 for the database that is opened with it, not only in
+	// the caller's copy of the configuration: 130 files written one after the other must sit
+	// as 100 + 30 in two directories of the single root
+	for _, lim := range []uint64{0, 1, 50, 99, 100} {
+		base := filepath.Join(scratch, fmt.Sprintf("lim%d", lim))
+		root := filepath.Join(base, "root")
+		cfg := config.Config{Storage: config.Storage{DbPath: filepath.Join(base, "db"), RootDirs: []string{root}, MaxDirCount: lim, GCPeriod: time.Hour}, WPool: config.WPool{NumWorkers: 1, SendDuration: time.Millisecond}}
+		c.Evals++
+		db, err := inline.Open(ctxBg, cfg)
+		if err != nil {
+			c.Violate("open-failed limit-below-100", fmt.Sprintf("inline.Open with MaxDirCount %d: %v", lim, err), nil)
+			continue
+		}
+		for i := 0; i < 130; i++ {
+			if err := db.Set(ctxBg, fmt.Sprintf("k%03d", i), []byte("v")); err != nil {
+				c.Violate("set-failed limit-below-100", err.Error(), nil)
+				break
+			}
+		}
+		db.Close()
+		var counts []int
+		ents, _ := os.ReadDir(root)
+		for _, e := range ents {
+			sub, _ := os.ReadDir(filepath.Join(root, e.Name()))
+			counts = append(counts, len(sub))
+		}
+		sort.Ints(counts)
+		if fmt.Sprint(counts) != "[30 100]" {
+			c.Violate(fmt.Sprintf("effective-directory-limit-not-100 configured=%d", lim), fmt.Sprintf("a database opened with MaxDirCount %d stored 130 files as %v per directory; with the limit raised to 100 they sit as [30 100]", lim, counts), map[string]any{"configured": lim, "entries_per_directory": counts})
+		}
+		c.AddDistinct(fmt.Sprintf("open-limit/%d", lim))
+		os.RemoveAll(base)
 	}
 	// ParseConfig -> inline.Open -> ParseConfig: the documented defaults must survive
 	os.MkdirAll(scratch, 0o755)
